@@ -267,3 +267,61 @@ def rename_history(oi):
         got = _names_after(ORDERS[oi])
         env.COUNTS["reached"] += 1
         return base == got
+
+
+# ---- the hashed naming path (any non-scalar field): equal names iff equal parameters ------------------------
+OPT_I = [None, 0, 1, -1]
+OPT_F = [None, 0.0, 1.0, 0.5]
+OPT_S = [None, "", "0", "None", "x"]
+OPT_B = [None, False, True]
+_HASHED = {}
+
+
+def _hashed_types():
+    if not _HASHED:
+        @h.paramclass
+        class Bias:
+            vref = h.Param(dtype=Optional[float], desc="vref", default=None)
+            en = h.Param(dtype=Optional[bool], desc="en", default=None)
+
+        @h.paramclass
+        class HP:
+            i = h.Param(dtype=Optional[int], desc="i", default=None)
+            f = h.Param(dtype=Optional[float], desc="f", default=None)
+            s = h.Param(dtype=Optional[str], desc="s", default=None)
+            b = h.Param(dtype=Optional[bool], desc="b", default=None)
+            bias = h.Param(dtype=Bias, desc="nested", default=Bias())
+        _HASHED.update(Bias=Bias, HP=HP)
+    return _HASHED["Bias"], _HASHED["HP"]
+
+
+def _hashed(ia, fa, sa, ba, ib, fb, sb, bb, nest):
+    env._reset_all()
+    Bias, HP = _hashed_types()
+    E = h.ExternalModule(name="E", port_list=[], paramtype=HP)
+
+    def mk(i, f, s, b):
+        if nest:  # the optional values sit in the nested parameter class
+            return HP(s=OPT_S[s], i=OPT_I[i], bias=Bias(vref=OPT_F[f], en=OPT_B[b]))
+        return HP(i=OPT_I[i], f=OPT_F[f], s=OPT_S[s], b=OPT_B[b])
+
+    pa, pb = mk(ia, fa, sa, ba), mk(ib, fb, sb, bb)
+    na, nb = E(pa).name, E(pb).name
+    env.COUNTS["reached"] += 1
+    same = (ia, fa, sa, ba) == (ib, fb, sb, bb)
+    return (na == nb) == same
+
+
+@harness("C09", args="ia: int, fa: int, sa: int, ba: int, ib: int, fb: int, sb: int, bb: int, nest: bool",
+         pre=["0 <= ia <= 3", "0 <= ib <= 3", "0 <= fa <= 3", "0 <= fb <= 3", "0 <= sa <= 4", "0 <= sb <= 4", "0 <= ba <= 2", "0 <= bb <= 2"],
+         tiers={"quick": {"timeout": 150, "parts": [("num", "sa == sb and ba == bb and sa == 0 and ba == 0"), ("txt", "ia == ib and fa == fb and ia == 0 and fa == 0")]},
+                "thorough": {"timeout": 600, "parts": parts_product(parts_over("ia", range(4)), parts_over("sa", range(5)))}},
+         sample=(0, 0, 0, 0, 1, 0, 0, 0, True),
+         bounds="the hashed naming path (parameter class with bool / nested fields): optional int / float / str / bool fields over the confusable values None, 0, 0.0, '', '0', 'None', False ... directly or inside a nested parameter class; two calls get one name iff all fields are equal (quick: the two numeric fields vary, or the text and bool fields; thorough: all)",
+         generalises="value selectors (solver-enumerated)", outside="md5 collisions")
+def name_injective_hashed(ia, fa, sa, ba, ib, fb, sb, bb, nest):
+    P = env.pick
+    a = (P(ia, 0, 3), P(fa, 0, 3), P(sa, 0, 4), P(ba, 0, 2), P(ib, 0, 3), P(fb, 0, 3), P(sb, 0, 4), P(bb, 0, 2))
+    nest = bool(nest)
+    with env.notrace():
+        return _hashed(*a, nest)
